@@ -498,8 +498,29 @@ def itemsize(dt: str) -> int:
 def boundary_table(prog: Program, cy: CyProgram) -> list[Site]:
     inf = Inferer(prog, cy)
     sites = []
+    import copy as _copy
     for f in prog.functions():
         cls_list = [f.cls] if f.cls is not None else [None]
+        if any(isinstance(c_, ast.Call) and any(isinstance(a_, ast.Starred)
+                                                for a_ in c_.args)
+               for c_ in ast.walk(f.node)):
+            # argument tuples prepared by a private helper: analyse the caller
+            # with the helper's statements in place
+            from .idioms import inline_simple_helpers
+
+            def _res0(hname, _f=f):
+                if not hname.startswith("_") or hname.startswith("__"):
+                    return None
+                h = prog.lookup(_f.cls, hname) if _f.cls is not None else None
+                if h is None:
+                    r_ = prog.resolve_name(_f.module, hname)
+                    h = r_[1] if r_ and r_[0] == "func" else None
+                return h.node if h is not None and \
+                    isinstance(h.node, ast.FunctionDef) else None
+            node0 = inline_simple_helpers(f.node, _res0)
+            if ast.dump(node0) != ast.dump(f.node):
+                f = _copy.copy(f)
+                f.node = node0
         for node in ast.walk(f.node):
             if not isinstance(node, ast.Call):
                 continue
@@ -533,7 +554,16 @@ def boundary_table(prog: Program, cy: CyProgram) -> list[Site]:
                 def _not_none(nm, _f=f):
                     r_ = prog.resolve_name(_f.module, nm)
                     return nm.isupper() and r_ is not None and r_[0] == "value"
-                exp = expand_starred_args(node, _resolve, _not_none)
+                def _tuple_type(nm, _f=f):
+                    r_ = prog.resolve_name(_f.module, nm)
+                    if r_ and r_[0] == "class":
+                        return any("NamedTuple" in ast.unparse(b_)
+                                   for b_ in r_[1].node.bases)
+                    if r_ and r_[0] == "value":
+                        return "namedtuple(" in ast.unparse(r_[1])
+                    return False
+                exp = expand_starred_args(node, _resolve, _not_none, _tuple_type,
+                                          fnode=f.node)
                 if exp is None:
                     continue            # not decidable statically: no verdict
                 node = ast.copy_location(
